@@ -28,6 +28,8 @@ import (
 	"encoding/base64"
 	"encoding/hex"
 	"encoding/json"
+	"errors"
+	"fmt"
 	"io"
 	"net/http"
 	"net/http/httptest"
@@ -52,6 +54,8 @@ func init() {
 	gen.RegisterOp("c18", "statusrt", func(c *gen.Ctx, raw json.RawMessage) any { return c18StatusRT(c, gen.Into[c18StatusRTIn](raw)) })
 	gen.RegisterOp("c18", "mdrt", func(_ *gen.Ctx, raw json.RawMessage) any { return c18MDRT(gen.Into[c18MDIn](raw)) })
 	gen.RegisterOp("c18", "hdrrt", func(_ *gen.Ctx, raw json.RawMessage) any { return c18HdrRT(gen.Into[c18HdrRTIn](raw)) })
+	gen.RegisterOp("c18", "anyconn", func(_ *gen.Ctx, raw json.RawMessage) any { return c18AnyConn(gen.Into[c18AnyErrIn](raw)) })
+	gen.RegisterOp("c18", "nilconv", func(_ *gen.Ctx, _ json.RawMessage) any { return c18NilConv() })
 	gen.RegisterOp("c18", "getrt", func(_ *gen.Ctx, raw json.RawMessage) any { return c18GetRT(gen.Into[c18GetRTIn](raw)) })
 }
 
@@ -569,4 +573,42 @@ func c18GetRTGen(c *gen.Ctx) {
 		do(r.Bytes(r.Intn(40)), js, !js || r.Bool())
 	}
 	c.E.Add("getrt", n)
+}
+
+// ---------------------------------------------------------------- ConvertErrorToConnectError, nil branches
+
+// anyconn: ConvertErrorToConnectError on nil / a plain error / a Connect error / a wrapped Connect
+// error; the result is shown in proto form (ConvertConnectToProtoError), null for nil.
+func c18AnyConn(in c18AnyErrIn) *c18PErr {
+	var err error
+	switch in.Kind {
+	case "nil":
+	case "plain":
+		err = errors.New(in.Text)
+	case "connect":
+		err = internal.ConvertProtoToConnectError(c18Proto(in.Err))
+	case "wrapped":
+		err = fmt.Errorf("%s: %w", in.Text, internal.ConvertProtoToConnectError(c18Proto(in.Err)))
+	}
+	return c18FromProto(internal.ConvertConnectToProtoError(internal.ConvertErrorToConnectError(err)))
+}
+
+type c18NilOut struct {
+	ProtoToConnect bool `json:"protoToConnect"` // ConvertProtoToConnectError(nil) == nil
+	ConnectToProto bool `json:"connectToProto"`
+	ProtoToGrpc    bool `json:"protoToGrpc"`
+	GrpcToProto    bool `json:"grpcToProto"`
+	ErrToConnect   bool `json:"errToConnect"`
+	ErrToProto     bool `json:"errToProto"`
+}
+
+func c18NilConv() c18NilOut {
+	return c18NilOut{
+		ProtoToConnect: internal.ConvertProtoToConnectError(nil) == nil,
+		ConnectToProto: internal.ConvertConnectToProtoError(nil) == nil,
+		ProtoToGrpc:    grpcutil.ConvertProtoToGrpcError(nil) == nil,
+		GrpcToProto:    grpcutil.ConvertGrpcToProtoError(nil) == nil,
+		ErrToConnect:   internal.ConvertErrorToConnectError(nil) == nil,
+		ErrToProto:     internal.ConvertErrorToProtoError(nil) == nil,
+	}
 }
